@@ -7,13 +7,14 @@ CONSTANTS
  Safe = FALSE
  KeepN = 1
  MaxEp = 7
- MaxSid = 5
+ MaxSid = 4
  WithReader = TRUE
  WithCopy = FALSE
  WithMerger = TRUE
  WithPurge = TRUE
  WithMemMerge = FALSE
  MaxMergeInputs = 2
+ AsyncRelease = FALSE
 CONSTRAINT Bound
 INVARIANTS RootIsReplay HeldAreReplays BoltFilesOnDisk RootFilesOnDisk
 PROPERTIES LayoutStutters ReaderStable
